@@ -256,7 +256,9 @@ fn observe_valid(id: &str, kind: &str, bytes: &[u8], w: &mut dyn Write) {
             // same scripted history with the same random stream (only for machines small enough to be quick)
             if m.states.len() <= 64 {
                 let (tx, rx) = std::sync::mpsc::channel::<&'static str>();
-                let (ma, mb) = (m.clone(), m2.clone());
+                // the reference is built with the public constructors (State::new / Machine::new) from the
+                // decoded machine's declared content, not taken from a deserializer
+                let (ma, mb) = (rebuild_public(&m).unwrap_or_else(|| m.clone()), m2.clone());
                 let _ = std::thread::Builder::new().stack_size(32 << 20).spawn(move || {
                     let d = catch_unwind(AssertUnwindSafe(|| drive_actions(&ma) == drive_actions(&mb) && sample_table(&ma) == sample_table(&mb)));
                     let _ = tx.send(match d { Ok(true) => "same", Ok(false) => "diff", Err(_) => "panic" });
@@ -275,6 +277,21 @@ fn observe_valid(id: &str, kind: &str, bytes: &[u8], w: &mut dyn Write) {
     }
     let _ = writeln!(w, "peak {} {} {}", peak, s.len(), std::mem::size_of::<State>());
     let _ = writeln!(w, "end");
+}
+
+/// the same machine built through `State::new` and `Machine::new`
+fn rebuild_public(m: &Machine) -> Option<Machine> {
+    let states: Vec<State> = m
+        .states
+        .iter()
+        .map(|st| {
+            let mut s = State::new(st.get_transitions());
+            s.action = st.action;
+            s.counter = st.counter;
+            s
+        })
+        .collect();
+    Machine::new(m.allowed_padding_packets, m.max_padding_frac, m.allowed_blocked_microsec, m.max_blocking_frac, states).ok()
 }
 
 /// what every state of `m` samples for every event under a fixed set of random words (the history above
